@@ -170,14 +170,20 @@ type pipeSpec struct {
 }
 
 var pipeSpecs = map[string]pipeSpec{
-	"toma":     {"sam.blockToFastaRecord", "fastaio.WriteAlignment", 0},
-	"tomawrap": {"sam.blockToFastaRecord", "fastaio.WriteAlignment", 0},
-	"samvar":   {"sam.getVariantsSam", "variants.WriteVariants", 1},
-	"variants": {"variants.getVariants", "variants.WriteVariants", 1},
+	"toma":        {"sam.blockToFastaRecord", "fastaio.WriteAlignment", 0},
+	"tomawrap":    {"sam.blockToFastaRecord", "fastaio.WriteAlignment", 0},
+	"samvar":      {"sam.getVariantsSam", "variants.WriteVariants", 1},
+	"variants":    {"variants.getVariants", "variants.WriteVariants", 1},
 	"variantsref": {"variants.getVariants", "variants.WriteVariants", 1},
 	"toprankgate": {"updown.getLines", "updown.reorderRecords", 1},
-	"snps":     {"snps.getSNPs", "snps.writeOutput", 1},
-	"udlist":   {"updown.getLines", "updown.writeOutput", 1},
+	"snps":        {"snps.getSNPs", "snps.writeOutput", 1},
+	// fan-out commands: the per-query goroutines report to Main, which collects by query index and then writes
+	"closest":       {"closest.findClosest", "closest.Closest", 1},
+	"closestn":      {"closest.findClosestN", "closest.ClosestN", 1},
+	"closestntable": {"closest.findClosestN", "closest.ClosestN", 1},
+	"toprank":       {"updown.findUpDownCatchment", "updown.TopRanking", 1},
+	"topranktable":  {"updown.findUpDownCatchment", "updown.TopRanking", 1},
+	"udlist":        {"updown.getLines", "updown.writeOutput", 1},
 }
 
 // pipeCall runs one command in-process on n records, writing to w.
@@ -377,6 +383,16 @@ func runPipe(vec map[string]interface{}) map[string]interface{} {
 				order[k] = x + 1
 			}
 		}
+	}
+	if cmd == "closestntable" || cmd == "topranktable" {
+		// long-form tables: several rows per query; the order of the queries is the order of first appearance
+		o2 := []int{}
+		for _, x := range order {
+			if len(o2) == 0 || o2[len(o2)-1] != x {
+				o2 = append(o2, x)
+			}
+		}
+		order = o2
 	}
 	obs["order"] = order
 	obs["header_ok"] = h == rh || (w.failed > 0 && strings.HasPrefix(rh, h))
